@@ -289,12 +289,14 @@ template <class T> inline Result<T> forward(T e2, double lat, double dlon, const
 }
 
 // Sphere (e2 = 0) closed form, for the self test and as a second reference at f = 0:
-//   xi = atan2(tan phi, cos lam), eta = atanh(cos phi sin lam), gamma = atan2(sin phi sin lam, cos lam), k = 1/sqrt(1 - (cos phi sin lam)^2)
+//   xi = atan2(tan phi, cos lam), eta = atanh(cos phi sin lam), gamma = atan(tan lam sin phi), k = 1/sqrt(1 - (cos phi sin lam)^2)
 template <class T> inline Result<T> sphere(double lat, double dlon) {
   Result<T> r; T sp, cp, sl, cl; sincosd<T>(lat, sp, cp); sincosd<T>(dlon, sl, cl);
   if (std::fabs(lat) > 45) { T s2, c2; sincosd<T>(lat > 0 ? 90 - lat : -90 - lat, s2, c2); cp = fn::Fabs(s2); }
-  r.ok = true; r.xi = fn::Atan2(sp, cp * cl); r.eta = fn::Atanh(cp * sl);
-  r.gamma_deg = fn::Atan2(sp * sl, cl) / deg<T>(); r.k = 1 / fn::Sqrt((1 - cp * sl) * (1 + cp * sl));
+  // 1 - (cos phi sin lam)^2 = sin^2 phi + cos^2 phi cos^2 lam  (no cancellation near the singular point phi = 0, lam = 90)
+  T den = fn::Sqrt(sp * sp + cp * cp * cl * cl);
+  r.ok = true; r.xi = fn::Atan2(sp, cp * cl); r.eta = fn::Asinh(cp * sl / den);
+  r.gamma_deg = fn::Atan2(sp * sl, cl) / deg<T>(); r.k = 1 / den;
   // |sin phi(w)| = |tanh(psi + i lam)| = sqrt((sinh^2 psi + sin^2 lam)/(sinh^2 psi + cos^2 lam)), sinh psi = tan phi
   { T n = sp * sp + sl * sl * cp * cp, d = sp * sp + cl * cl * cp * cp; r.absS = d > 0 ? fn::Sqrt(n / d) : T(1e30); }
   return r;
